@@ -3,8 +3,17 @@ import WntrModel.Model.MExpr
 import WntrModel.Lemmas.MetricsSum
 import Mathlib.Tactic.Ring
 import Mathlib.Tactic.NormNum
+import Mathlib.Data.List.Sort
+import Mathlib.Algebra.Order.Field.Rat
+import Mathlib.Algebra.Order.AbsoluteValue.Basic
 
 namespace Wntr.Metrics
+
+theorem rabs_abs (x : Rat) : rabs x = |x| := by
+  unfold rabs
+  split_ifs with h
+  · exact (abs_of_neg h).symm
+  · exact (abs_of_nonneg (not_lt.mp h)).symm
 
 theorem lsum_append (a b : List Rat) : lsum (a ++ b) = lsum a + lsum b := by
   induction a with
@@ -53,12 +62,66 @@ theorem evalO_eq_some {env : Env} {row : Row} {e : MExpr} {x : Rat} (h1 : ok env
     (h2 : eval env row e = x) : evalO env row e = some x := by
   simp [evalO, h1, h2]
 
+/-! ### a scalar accumulated over several loops is a sum of addends whose order does not matter -/
+
+/-- the addends of `acc = acc + x` chains -/
+def addends : MExpr → List MExpr
+  | .add a b => addends a ++ addends b
+  | e => [e]
+
+/-- canonical position of a loop: by the index set it runs over (anything else first) -/
+def loopKey : MExpr → Nat
+  | .sum .tanks _ => 1
+  | .sum .pipes _ => 2
+  | .sum .headPumps _ => 3
+  | .sum .powerPumps _ => 4
+  | .sum .valves _ => 5
+  | .sum .junctions _ => 6
+  | .sum .reservoirs _ => 7
+  | .sum .pumps _ => 8
+  | _ => 0
+
+def loopLe (a b : MExpr) : Prop := loopKey a ≤ loopKey b
+instance : DecidableRel loopLe := fun a b => inferInstanceAs (Decidable (loopKey a ≤ loopKey b))
+
+/-- the addends in canonical order, whatever order the loops have in the source -/
+def sortedAddends (e : MExpr) : List MExpr := (addends e).insertionSort loopLe
+
+theorem lsum_perm {l1 l2 : List Rat} (h : l1.Perm l2) : lsum l1 = lsum l2 := by
+  induction h with
+  | nil => rfl
+  | cons x _ ih => simp [lsum_cons, ih]
+  | swap x y l => simp only [lsum_cons]; ring
+  | trans _ _ ih1 ih2 => exact ih1.trans ih2
+
+theorem eval_addends (env : Env) (row : Row) (e : MExpr) :
+    eval env row e = lsum ((addends e).map (eval env row)) := by
+  induction e with
+  | add a b iha ihb => simp only [addends, List.map_append, lsum_append, eval, ← iha, ← ihb]
+  | _ => simp [addends, lsum_cons, lsum_nil]
+
+theorem ok_addends (env : Env) (row : Row) (e : MExpr) :
+    ok env row e = (addends e).all (ok env row) := by
+  induction e with
+  | add a b iha ihb => simp only [addends, List.all_append, ok, ← iha, ← ihb]
+  | _ => simp [addends]
+
+theorem eval_sortedAddends (env : Env) (row : Row) (e : MExpr) :
+    eval env row e = lsum ((sortedAddends e).map (eval env row)) := by
+  rw [eval_addends]
+  exact lsum_perm ((List.perm_insertionSort loopLe (addends e)).map _).symm
+
+theorem ok_sortedAddends (env : Env) (row : Row) (e : MExpr) :
+    ok env row e = (sortedAddends e).all (ok env row) := by
+  rw [ok_addends]
+  exact ((List.perm_insertionSort loopLe (addends e)).all_eq).symm
+
 open Lean.Parser.Tactic in
 /-- unfold the evaluator on a generated term and the documented formula (sums distributed over `+`, `-`, unary minus),
 split the remaining zero-denominator / `raise` case distinctions and close what is left by ring normalisation -/
 macro "mexpr_tie" "[" ts:simpLemma,* "]" : tactic =>
   `(tactic| (simp [Bool.cond_eq_ite, evalO, ok, eval, evalC, Function.comp_def, divz, lsum_map_sub, lsum_map_add,
-        lsum_map_neg, $ts,*] <;>
+        lsum_map_neg, rabs_abs, abs_sub_comm, $ts,*] <;>
       (try split_ifs) <;>
       (try first
         | done
